@@ -544,20 +544,27 @@ fn ref_node(c: &Cfg, t: &Ty, n: &BNode) -> Option<R> {
         BNode::Rgb(r, g, b, a) => match t {
             // the element type of the outer pseudo-sequence is what sees "rgb" and then the component list
             Ty::Seq(e) => ref_color(e, *r, *g, *b, *a),
-            _ => None, // `any` and every non-sequence request: no claim (paths differ, see the final report)
+            // full capture: ["rgb",[r,g,b]]
+            Ty::Any => ref_color(&Ty::Any, *r, *g, *b, *a),
+            // a map / struct request on a colour is a misfit the paths answer differently: no claim
+            Ty::Map(_) | Ty::Struct(_) => None,
+            _ => Some(Err("err:type".to_string())),
         },
         BNode::Arr(vs) => match t {
             Ty::Seq(e) => {
-                // an rgb block in ARRAY position is outside the claim: the tape parser only recognises the rgb
-                // lexeme as an object value (tape.rs `L::RGB if state == ObjectValue`), the lexer/reader anywhere
-                if vs.iter().any(|v| matches!(v, BNode::Rgb(..))) { return None; }
+                // an rgb block in ARRAY position: the tape parser only recognises the rgb lexeme as an object value
+                // (tape.rs `L::RGB if state == ObjectValue`), the lexer/reader anywhere: known finding rgb-in-array.
+                // The reference is the lexer's reading; the case is flagged so that only the tape path's
+                // disagreement is reported under that kind.
+                if vs.iter().any(|v| matches!(v, BNode::Rgb(..))) { RGB_IN_ARRAY.with(|f| f.set(true)); }
                 let mut items = vec![];
                 for v in vs { match ref_node(c, e, v)? { Ok(x) => items.push(x), Err(e) => return Some(Err(e)) } }
                 Some(Ok(format!("[{}]", items.join(","))))
             }
             Ty::Any => {
                 let mut items = vec![];
-                for v in vs { if matches!(v, BNode::Obj(_) | BNode::Rgb(..)) { return None; } match ref_node(c, &Ty::Any, v)? { Ok(x) => items.push(x), Err(e) => return Some(Err(e)) } }
+                if vs.iter().any(|v| matches!(v, BNode::Rgb(..))) { RGB_IN_ARRAY.with(|f| f.set(true)); }
+                for v in vs { if matches!(v, BNode::Obj(_)) { return None; } match ref_node(c, &Ty::Any, v)? { Ok(x) => items.push(x), Err(e) => return Some(Err(e)) } }
                 Some(Ok(format!("[{}]", items.join(","))))
             }
             Ty::Map(_) | Ty::Struct(_) if vs.is_empty() => ref_fields(c, t, &[]),
@@ -621,10 +628,21 @@ fn ref_struct(c: &Cfg, decl: &[(String, Option<u16>, Ty)], by_token: bool, fs: &
     Some(Ok(format!("{{{}}}", items.join(","))))
 }
 
-pub fn value_of_bin(c: &Cfg, ty: &RootTy, d: &BDoc) -> Option<String> {
+thread_local! { static RGB_IN_ARRAY: std::cell::Cell<bool> = std::cell::Cell::new(false); }
+
+/// reference value plus the known finding (if any) the case probes: only the TAPE path's disagreement may be
+/// reported under that kind
+pub fn value_and_kind(c: &Cfg, ty: &RootTy, d: &BDoc) -> (Option<String>, Option<&'static str>) {
+    RGB_IN_ARRAY.with(|f| f.set(false));
+    let v = value_of_bin(c, ty, d);
     // a document that STARTS with a ghost object is refused by the tape parser by design (tape.rs `open_empty_err`),
-    // while both sequential deserializers skip it: outside the claim
-    if d.fields.first().map(|f| f.ghosts > 0).unwrap_or(false) { return None; }
+    // while both sequential deserializers skip it
+    let kind = if d.fields.first().map(|f| f.ghosts > 0).unwrap_or(false) { Some("leading-ghost-root") }
+        else if RGB_IN_ARRAY.with(|f| f.get()) { Some("rgb-in-array") } else { None };
+    (v, kind)
+}
+
+pub fn value_of_bin(c: &Cfg, ty: &RootTy, d: &BDoc) -> Option<String> {
     let r = match ty {
         RootTy::Plain(t @ (Ty::Map(_) | Ty::Struct(_))) => ref_fields(c, t, &d.fields)?,
         RootTy::Plain(Ty::Prop(_)) => return None,
@@ -710,7 +728,7 @@ pub fn gen_node_ty(rng: &mut Rng, n: &BNode) -> Ty {
                 Ty::Seq(Box::new(Ty::Ign))
             }
         }
-        BNode::Rgb(..) => match rng.below(5) { 0 => Ty::Ign, 1 => Ty::Seq(Box::new(Ty::Ign)), 2 => Ty::Seq(Box::new(Ty::Seq(Box::new(Ty::U32)))), _ => Ty::Seq(Box::new(Ty::Any)) },
+        BNode::Rgb(..) => match rng.below(9) { 0 => Ty::Ign, 1 => Ty::Seq(Box::new(Ty::Ign)), 2 => Ty::Seq(Box::new(Ty::Seq(Box::new(Ty::U32)))), 3 | 4 => Ty::Any, 5 => Ty::Str, 6 => Ty::I64, _ => Ty::Seq(Box::new(Ty::Any)) },
     }
 }
 
@@ -836,13 +854,20 @@ pub fn exec(w: &[&str], obs: &mut Obs) -> Option<String> {
         }
         ["bde_spec", cfg, ty, bd] => {
             let (c, ty, d) = (parse_cfg(cfg)?, parse_root(ty)?, parse_bdoc(bd)?);
-            let expect = value_of_bin(&c, &ty, &d)?;
+            let (expect, kind) = value_and_kind(&c, &ty, &d);
+            let expect = expect?;
             let data = render_bdoc(&d);
             // L3: the three real paths against the reference and each other, both resolver kinds, several buffers
             let (raw, big) = raw_tokens(&data);
             let need = max_token_len(&raw, big);
             let mut check = |name: &str, got: String, obs: &mut Obs| {
-                if got != expect { obs.violation(&format!("c04-{}-ne-reference", name), &case(), &format!("{} gives {} reference {}", name, got, expect)); }
+                if got != expect {
+                    // probes of the known findings: the tape path (and only it) may disagree, under the finding's kind
+                    match kind {
+                        Some(k) if name == "tape" => { obs.violation(k, &case(), &format!("{} gives {} reference {}", name, got, expect)); }
+                        _ => { obs.violation(&format!("c04-{}-ne-reference", name), &case(), &format!("{} gives {} reference {}", name, got, expect)); }
+                    }
+                }
             };
             for lines in [false, true] {
                 let c2 = Cfg { lines, ..c.clone() };
@@ -995,8 +1020,8 @@ fn emit_paths(g: &mut Gen, c: &Cfg, ty: &RootTy, data: &[u8], slice_ok: bool) {
 /// the on-demand path discards ONE lexeme id after an `Open` in key position; on raw lexemes that is exact
 /// only when that lexeme carries no payload.  Sufficient syntactic guard used for ill-formed / ill-typed cases.
 fn slice_token_level(raw: &[String]) -> bool {
-    let payload_free = |t: &str| t == "Open" || t == "Close" || t == "Equal" || (t.starts_with("Id:") && t != "Id:579");
-    raw.windows(2).all(|p| p[0] != "Open" || payload_free(&p[1])) && !raw.iter().any(|t| t == "Id:579")
+    let payload_free = |t: &str| t == "Open" || t == "Close" || t == "Equal" || t.starts_with("Id:");
+    raw.windows(2).all(|p| p[0] != "Open" || payload_free(&p[1]))
 }
 
 fn mutate_tokens(rng: &mut Rng, d: &BDoc) -> Vec<u8> {
@@ -1041,6 +1066,10 @@ pub fn gen(g: &mut Gen) {
         ("st(a:i64;zz:i64)", "Id:8192=I32:5"),
         ("tst(a#8192:i64;name#8206:str)", "Id:8192=I32:5;Id:8206=Q:656e67"),
         ("st(a:f32;b:f64)", "Id:8192=I32:16777217;Id:8199=U64:18446744073709551615"),
+        // probes of the known findings
+        ("st(flags:seq(ign))", "Id:8227=A(I32:0;Rgb:1.2.3;F32:dc050000)"),
+        ("st(flags:seq(any);a:i64)", "Id:8227=A(Rgb:9.8.7.6);Id:8192=I32:1"),
+        ("st(a:i64)", "~Id:8192=I32:5"),
     ] {
         for strat in ["E", "S", "I"] {
             for e in [show_cfg(&c_all).splitn(3, '/').nth(2).unwrap().to_string(), "-".to_string()] {
@@ -1063,8 +1092,13 @@ pub fn gen(g: &mut Gen) {
         for _ in 0..k {
             let c = gen_cfg(&mut g.rng);
             let ty = gen_root_ty(&mut g.rng, &bd);
-            let fits = value_of_bin(&c, &ty, &bd).is_some();
-            if fits {
+            let (val, kind) = value_and_kind(&c, &ty, &bd);
+            let fits = val.is_some();
+            if let (true, Some(k)) = (fits, kind) {
+                // known findings are probed with a small number of cases per run (reported under their own kind)
+                let key = format!("probe:{}", k);
+                if g.hist.get(&key).copied().unwrap_or(0) < 15 { g.emit(format!("bde_spec {} {} {}", show_cfg(&c), show_root(&ty), bds)); g.count(&key); }
+            } else if fits {
                 g.emit(format!("bde_spec {} {} {}", show_cfg(&c), show_root(&ty), bds));
                 g.count("wellformed:fitting-type");
             } else { g.count("wellformed:no-claim-type"); }
